@@ -5,15 +5,19 @@ Protocol (one op per line, all numbers non-negative decimal integers; see lean/O
   tick id (one pass of the store's background regeneration loop) | consume id cost cur allowDebt prio | regen id n cur |
   transfer src dst n cur | convert id n | dorm id | wake id | interest id | rst id |
   obs id none | obs id nth k exc | obs id state <name> exc | obs id always exc   (scripted on_state_change observer)
+  loud id utf8|ascii|closed|none   (store.silent = False and the process console becomes a strict UTF-8 stream / an ASCII
+                                    stream / a closed stream; none: silent = True again)
+  label <hex code points>          (the `operation` text passed to the following consume calls; default "op")
 Observation: `<ret> | <store>[ | <store>] | cb [id:state,...]`,
 <store> = atp gtp nadh debt consumed regenerated ops failed ntx state maxAtp maxGtp maxNadh.
 """
 from __future__ import annotations
 
 import itertools
+import sys
 from fractions import Fraction
 
-from ..core import Infra, LEAN, REPO, Prop, Violation, import_repo, run_model, write_if_changed
+from ..core import Infra, LEAN, REPO, Prop, Violation, import_repo, run_model, unhexs, write_if_changed
 from ..extract import e5_metabolism, py2lean_metabolism
 from ..atpbg import Background
 
@@ -45,6 +49,21 @@ class _Observer:
         if exc is not None:
             cls = EXC[exc] if exc < len(EXC) else Exception
             raise cls() if exc != 2 else cls("k")
+
+
+CONSOLES = ("utf8", "ascii", "closed", "none")
+
+
+def _console(kind):
+    """what sys.stdout is while a loud store works: strict encoders raise UnicodeEncodeError on what they cannot encode (the
+    emoji of the messages on ASCII, a lone surrogate in the caller's operation text on UTF-8), a closed stream raises ValueError"""
+    import io
+    if kind == "ascii":
+        return io.TextIOWrapper(io.BytesIO(), encoding="ascii", errors="strict")
+    st = io.TextIOWrapper(io.BytesIO(), encoding="utf-8", errors="strict")
+    if kind == "closed":
+        st.close()
+    return st
 
 
 def _isnat(tok: str) -> bool:
@@ -212,10 +231,17 @@ class C04(Prop):
             return len(stores) - 1, []
         if op == "obs":
             return None, []
+        if op == "label":
+            self._label = unhexs(t[1])
+            return None, []
+        if op == "loud":
+            stores[int(t[1])].silent = t[2] == "none"
+            self._console_kind = None if t[2] == "none" else t[2]
+            return None, []
         i = int(t[1])
         s = stores[i]
         if op == "consume":
-            return s.consume(int(t[2]), "op", self.cur[t[3]], t[4] == "1", int(t[5])), [i]
+            return s.consume(int(t[2]), getattr(self, "_label", "op"), self.cur[t[3]], t[4] == "1", int(t[5])), [i]
         if op == "regen":
             return s.regenerate(int(t[2]), self.cur[t[3]]), [i]
         if op == "transfer":
@@ -267,6 +293,11 @@ class C04(Prop):
                 lines.append(obs_line())
                 if rng.random() < 0.4:
                     lines.append(obs_line())
+            if rng.random() < 0.15:      # default configuration: silent=False, on consoles that cannot show everything
+                for i_ in rng.sample([0, 1], rng.choice([1, 1, 2])):
+                    lines.append(f"loud {i_} {rng.choice(['utf8', 'ascii', 'ascii', 'closed'])}")
+                if rng.random() < 0.6:
+                    lines.append("label " + rng.choice(["d800", "-", "e9.2603", "6f.70.dfff", "1f600"]))
             mix = ["consume"] * 6 + ["transfer"] * 2 + ["convert", "dorm", "wake", "interest", "interest"]
             if not no_inflow:
                 mix += ["regen"] * 3 + ["rst"]
@@ -321,7 +352,8 @@ class C04(Prop):
                 bad = rng.choice(["bogus 0", "consume 0 x atp 1 0", "consume 0 -5 atp 1 0", "consume 9 1 atp 0 0",
                                   "regen 0 1 xyz", "transfer 0 7 1 atp", "consume 0 1 atp", "rst", "new 1 2 3",
                                   "convert 0 1.5", "interest 12", "obs 0 nth x 0", "obs 5 always 0", "obs 0 state purple 0",
-                                  "obs 0", "tick", "tick 7", "tick x", "newr 1 2 3 4 1 10 1 0", "newr 1 2 3 4 1 10 1"])
+                                  "obs 0", "tick", "tick 7", "tick x", "newr 1 2 3 4 1 10 1 0", "newr 1 2 3 4 1 10 1",
+                                  "loud 0 latin1", "loud 9 ascii", "loud 0", "label", "label zz", "label 110000"])
                 lines.insert(rng.randrange(2, len(lines) + 1), bad)
             yield {"lines": lines, "note": "random" + (" no-inflow" if no_inflow else "") + (" big" if big else "")
                    + (" observers" if with_obs else "")}
@@ -413,6 +445,11 @@ class C04(Prop):
             return (r == ["none"] or (len(r) == 3 and r[0] == "nth" and _isnat(r[1]) and _isnat(r[2]))
                     or (len(r) == 3 and r[0] == "state" and r[1] in STATES and _isnat(r[2]))
                     or (len(r) == 2 and r[0] == "always" and _isnat(r[1])))
+        if t[0] == "loud":
+            return len(t) == 3 and _isnat(t[1]) and t[2] in CONSOLES
+        if t[0] == "label":
+            return len(t) == 2 and (t[1] == "-" or all(x and all(c in "0123456789abcdef" for c in x) and int(x, 16) < 0x110000
+                                                       for x in t[1].split(".")))
         if t[0] not in self.ARITY or len(t) != self.ARITY[t[0]]:
             return False
         curpos = {"consume": 3, "regen": 3, "transfer": 4}.get(t[0])
@@ -431,11 +468,23 @@ class C04(Prop):
         cblog = []
         extra = []
         lines = case["lines"]
+        self._label, self._console_kind = "op", None
         for idx, line in enumerate(lines):
             extra.append(None)
             t = line.split()
             if not self._wellformed(t):
                 obs.append("bad-op")
+                continue
+            if t[0] == "label":
+                self._apply(stores, line)
+                obs.append("ok")
+                continue
+            if t[0] == "loud":
+                if int(t[1]) >= len(stores):
+                    obs.append("no-such-store")
+                else:
+                    self._apply(stores, line)
+                    obs.append("ok")
                 continue
             if t[0] in ("new", "newr"):
                 if int(t[6]) == 0 or (t[0] == "newr" and int(t[8]) == 0):
@@ -458,11 +507,16 @@ class C04(Prop):
                 obs.append("no-such-store" + "".join(" | " + (self._show_store(stores[i]) if i < len(stores) else "-")
                                                      for i in ids) + " | cb []")
                 continue
+            real_stdout = sys.stdout
+            if self._console_kind is not None:
+                sys.stdout = _console(self._console_kind)
             try:
                 r, _ = self._apply(stores, line)
                 ret = self._show_ret(r)
             except Exception as e:  # noqa
                 ret = f"raise:{type(e).__name__}"
+            finally:
+                sys.stdout = real_stdout
             if not self.float_ok and any(self._float_sensitive(stores[i]) for i in ids):
                 # Lean Float and Python float were seen to disagree at start-up: do not compare beyond this point
                 self.float_truncated += 1
@@ -493,7 +547,7 @@ class C04(Prop):
             t = line.split()
             if o == "bad-op" or o.startswith("no-such-store"):
                 continue
-            if t[0] == "obs":
+            if t[0] in ("obs", "loud", "label"):
                 continue
             if t[0] in ("new", "newr"):
                 a, g, n, md = int(t[1]), int(t[2]), int(t[3]), int(t[4])
